@@ -2,6 +2,7 @@
 are asked twice, in different orders, on a re-parsed copy, and (with --child) in a second process with another PYTHONHASHSEED; the answers and
 the serialised bytes must not change.  Prints JSON."""
 import ast
+import io
 import re
 import json
 import os
@@ -65,7 +66,14 @@ for name, (hexdata, a1) in first.items():
     a2 = answers(p)
     a3 = answers(p)
     a4 = answers(fk.Pickled.load(p.dumps())) if a1["bytes"] else a1
-    for tag, a in (("other order", a2), ("asked again", a3), ("re-parsed copy", a4)):
+    # the same bytes read from the middle of a stream (after a header, as the members of a stack are)
+    try:
+        st_ = io.BytesIO(b"HEADER!!" + data)
+        st_.read(8)
+        a5 = answers(fk.Pickled.load(st_))
+    except Exception:  # noqa
+        a5 = a1
+    for tag, a in (("other order", a2), ("asked again", a3), ("re-parsed copy", a4), ("read at a non-zero stream offset", a5)):
         diff = [k for k in a1 if a1[k] != a[k]]
         if diff:
             fails.append({"program": name, "bytes": hexdata, "when": tag, "differs": diff, "first": {k: str(a1[k])[:200] for k in diff},
